@@ -131,6 +131,7 @@ def run(ctx, eng):
     f4 = m.func(S + '_initialize_content_length')
     paths = eng.I.run(f4)
     head = False
+    head_bad = []
     hdr = False
     bad_int = True
     for p in cm.normal_paths(paths):
@@ -139,7 +140,14 @@ def run(ctx, eng):
         conds = [cm.show0(e.cond) for e in p.events if e.kind == 'assume']
         if any(c in ("(self.request_method == b'HEAD')",
                      "(b'HEAD' == self.request_method)") for c in conds):
-            head = head or (len(ws) == 1 and ws[0].value == T.C(0))
+            # on EVERY path of a HEAD response the final expected length is
+            # 0, whatever content-length the block carries
+            if ws and ws[-1].value == T.C(0):
+                head = True
+            else:
+                head_bad.append('a HEAD path ends with expected length %s'
+                                % (cm.show0(ws[-1].value) if ws else
+                                   'unset'))
         for e in ws:
             v = e.value
             if v[0] == 'call' and v[1] == 'int' and any(
@@ -152,8 +160,10 @@ def run(ctx, eng):
                     e.kind == 'catch' and 'ValueError' in e.names
                     for e in p.events):
             bad_int = False
-    ctx.ob('FLOW.expected', f4.qual, 'HEAD responses expect no body', head,
-           'request_method == b"HEAD" => expected length 0', node=f4.node)
+    ctx.ob('FLOW.expected', f4.qual, 'HEAD responses expect no body',
+           head and not head_bad, '; '.join(sorted(set(head_bad))) or
+           'request_method == b"HEAD" => expected length 0 on every path',
+           node=f4.node)
     ctx.ob('FLOW.expected', f4.qual, 'content-length header parsed', hdr and
            not bad_int, 'int(value, 10) of the content-length field; a '
            'malformed value is a ProtocolError', node=f4.node)
